@@ -807,7 +807,7 @@ impl Fixture {
 		use tower::Service;
 		let layer = ProxyGetRequestLayer::new([("/health", "guard_probe")]).expect("valid path");
 		let mut svc = self.builder.clone().set_http_middleware(tower::ServiceBuilder::new().layer(layer)).build(self.methods.clone(), self.stop.clone());
-		let req = HttpReq { method: "GET".into(), headers: vec![], frames: vec![], content_length: false, uri: path.into() };
+		let req = HttpReq { method: "GET".into(), headers: vec![], frames: vec![], content_length: false, uri: path.into(), trailers: false };
 		let request = match build_request(&req) {
 			Ok(r) => r,
 			Err(e) => return HttpResp { status: 0, body: e.into_bytes(), content_type: None },
@@ -983,6 +983,9 @@ pub struct HttpReq {
 	pub frames: Vec<Vec<u8>>,
 	pub content_length: bool,
 	pub uri: String,
+	/// the body ends with a trailers frame (chunked transfer with trailer fields, HTTP/2 trailers): no body bytes in it
+	#[serde(default)]
+	pub trailers: bool,
 }
 
 impl HttpReq {
@@ -993,6 +996,7 @@ impl HttpReq {
 			frames: vec![body.to_vec()],
 			content_length: true,
 			uri: "/".into(),
+			trailers: false,
 		}
 	}
 }
@@ -1006,8 +1010,13 @@ pub struct HttpResp {
 
 pub type FrameBody = http_body_util::StreamBody<futures_util::stream::Iter<std::vec::IntoIter<Result<http_body::Frame<Bytes>, Infallible>>>>;
 
-pub fn frame_body(frames: &[Vec<u8>]) -> FrameBody {
-	let v: Vec<Result<http_body::Frame<Bytes>, Infallible>> = frames.iter().map(|f| Ok(http_body::Frame::data(Bytes::from(f.clone())))).collect();
+pub fn frame_body(frames: &[Vec<u8>], trailers: bool) -> FrameBody {
+	let mut v: Vec<Result<http_body::Frame<Bytes>, Infallible>> = frames.iter().map(|f| Ok(http_body::Frame::data(Bytes::from(f.clone())))).collect();
+	if trailers {
+		let mut h = ::http::HeaderMap::new();
+		h.insert("x-checksum", ::http::HeaderValue::from_static("0"));
+		v.push(Ok(http_body::Frame::trailers(h)));
+	}
 	http_body_util::StreamBody::new(futures_util::stream::iter(v))
 }
 
@@ -1020,7 +1029,7 @@ pub fn build_request(req: &HttpReq) -> Result<::http::Request<FrameBody>, String
 		let n: usize = req.frames.iter().map(|f| f.len()).sum();
 		b = b.header("content-length", n.to_string());
 	}
-	b.body(frame_body(&req.frames)).map_err(|e| e.to_string())
+	b.body(frame_body(&req.frames, req.trailers)).map_err(|e| e.to_string())
 }
 
 pub async fn http_call(svc: &mut Svc, req: HttpReq) -> HttpResp {
